@@ -84,7 +84,12 @@ def choose(rng, st):
             neg = rng.random() < 0.4
             k = rng.randint(0, n + 1 if n else 0)
             cols = [rng.randrange(n) for _ in range(k)] if n else []
-            return op, [cols, neg]
+            if n >= 3 and rng.random() < 0.4:
+                # an index window whose ends are in place and whose interior is permuted / repeated
+                lo = rng.randint(0, n - 3)
+                hi = rng.randint(lo + 2, n - 1)
+                cols = [lo] + [rng.randint(lo, hi) for _ in range(hi - lo - 1)] + [hi]
+            return op, [cols, neg, rng.choice(["list", "tuple", "array"])]
         if op == "TakeSeqs":
             if rng.random() < 0.35:
                 return op, [[x for x in names if rng.random() < 0.4], True]
